@@ -347,6 +347,21 @@ def scenario_signature(rec, sc, clause):
     return sig
 
 
+def parked_generators(n):
+    """A history in the model's vocabulary (not a TLC behaviour: far beyond its bounds): n generators are created, entered and
+    left suspended after one yield; a plain function is called; then every generator rebinds its parameter, yields once more and
+    returns - all in creation order."""
+    H = lambda op, f, i, v="none", ch=(): {"op": op, "f": f, "id": i, "v": v, "catch": True, "draw": 0, "ch": list(ch)}  # noqa: E731
+    h = []
+    for i in range(1, n + 1):
+        h += [H("Create", "G", i, "int"), H("Resume", "G", i, ch=[i]), H("Yield", "G", i, "int", [i])]
+    h += [H("Call", "F", n + 1, "int", [n + 1]), H("Return", "expr", n + 1, "int")]
+    for i in range(1, n + 1):
+        h += [H("Resume", "G", i, ch=[i]), H("Rebind", "G", i, "none"), H("Yield", "G", i, "none", [i]),
+              H("Resume", "G", i, ch=[i]), H("Return", "expr", i, "int")]
+    return h
+
+
 def binom_interval(n, p, eps=1e-9):
     """[lo, hi] such that P(X < lo) + P(X > hi) < eps for X ~ Binomial(n, p) (exact, log space)."""
     import math
@@ -593,6 +608,13 @@ def main(pid, tier, seed, replay=None):
             if i % 5 == 0:   # the same behaviour with rich values (no prediction; P-layer only)
                 scs.append({"tid": tid + 1, "hist": b["hist"], "rate": rate, "k": rng.choice([0, 3]),
                             "seed": seed * 7919 + i, "rich": rng.sample(rich, 6)})
+        if not sampled:
+            # directed: very many generators suspended at once (a bound on the tracer's pending calls, a pruning pass, a
+            # per-call scan of the pending table would show here and nowhere in the small behaviours above)
+            for n_parked in ((1100,) if q else (1100, 3000, 12000)):
+                scs.append({"tid": len(scs) + 1, "hist": parked_generators(n_parked), "rate": 0, "k": 0, "seed": seed})
+            plan.append({"family": "directed: 1100 (.. 12000) generators suspended at the same time, a plain call in between, then all "
+                                   "of them rebound, resumed and finished in creation order", "behaviours": 1 if q else 3})
     records = run_scenarios(scs)
     env_text = envgen.mtenv_text()
     by_tid = {r["tid"]: r for r in records}
